@@ -150,9 +150,11 @@ def build_cred(form: str, *, token: str, secret: bytes, cookie_name: str, now: i
     elif form == "query-invalid-utf8":
         q.append(("token", rng.choice([b"\xff", b"ab\xc3", b"\xed\xa0\x80", token.encode() + b"\xfe"])))
     elif form == "query-nul":
-        q.append(("token", rng.choice(["a\x00b", "\x00", token + "\x00"])))
+        # never derived from the real token: tornado's get_argument documents that it strips control characters
+        # and surrounding whitespace, so "<token>\x00" IS the token
+        q.append(("token", rng.choice(["a\x00b", "\x00", wrong + "\x00", "\x00" + wrong[:8]])))
     elif form == "bearer-nul":
-        h.append(("Authorization", "Bearer " + rng.choice(["a\x00b", token + "\x00"])))
+        h.append(("Authorization", "Bearer " + rng.choice(["a\x00b", wrong + "\x00"])))
     elif form == "query-very-long":
         q.append(("token", token + "a" * rng.choice([5000, 30000])))
     elif form == "bearer-very-long":
